@@ -28,7 +28,7 @@ for d in sorted(glob.glob(os.path.join(ROOT, "seeded", "*"))):
             how.append({"diff": "correspondence disagreement on a prescribed observable (replay = the input)", "oracle": "direct oracle on the real code (replay = the input)",
                         "no-failing-input-found": "broken obligation / correspondence, no failing input found"}[kind] + extra)
     def short(x, n):
-        x = " ".join(str(x).split())
+        x = " ".join(str(x).split()).replace("|", "/")
         return x if len(x) <= n else x[:n - 1] + "…"
     print(f"| {os.path.basename(d)} | {m.get('property')} | {short(m.get('summary'), 260)} | {short(m.get('what_it_needs_to_manifest'), 200)} | "
           f"{', '.join(caught) if caught else ('**missed**' if det else 'not run')} | {'; '.join(how)} |")
